@@ -174,10 +174,17 @@ FrameConjuncts(f, x, cs, h, kk, isLast, cb) ==
                LET s    == f.subs[j]
                    used == s.res.p - s.res.start
                IN \* bind the optimum once (LET definitions are re-evaluated at every use)
-                  UNION { IF opt < 268435456 /\ used > opt
-                          THEN {TagF("C13", kk, "subframe " \o ToString(j) \o ": residual coded in " \o ToString(used)
-                                      \o " bits, optimum over the search space is " \o ToString(opt))}
-                          ELSE {} : opt \in {RiceOptimum(s.res.out, f.n, s.order, cs.maxp)} }
+                  UNION { (IF rc.cost < 268435456 /\ used > rc.cost
+                           THEN {TagF("C13", kk, "subframe " \o ToString(j) \o ": residual coded in " \o ToString(used)
+                                      \o " bits, optimum over the search space is " \o ToString(rc.cost))}
+                           ELSE {}) \cup
+                          \* not a listed property: WHICH of several optimal codings is emitted (RiceSearch!TieRule)
+                          (IF rc.cost < 268435456 /\ used = rc.cost /\ (s.res.porder # rc.order \/ s.res.params # rc.params)
+                           THEN {TagF("MD13", kk, "subframe " \o ToString(j) \o ": an optimal coding other than the one the search model predicts: order "
+                                      \o ToString(s.res.porder) \o " parameters " \o ToString(s.res.params) \o ", predicted order "
+                                      \o ToString(rc.order) \o " parameters " \o ToString(rc.params))}
+                           ELSE {})
+                          : rc \in {RiceChoice(s.res.out, f.n, s.order, cs.maxp)} }
              ELSE {} : j \in 1..f.nch }
    ELSE {})
 
